@@ -108,9 +108,10 @@ func genPackage(plan *simrt.Source) *pkgSrc {
 	ng := plan.Draw(4)
 	nd := 4 + plan.Draw(10)
 	type file struct {
-		name string
-		xgo  bool
-		body []string
+		name    string
+		xgo     bool
+		body    []string
+		imports string
 	}
 	var files []*file
 	for i := 0; i < nx; i++ {
@@ -164,10 +165,13 @@ func genPackage(plan *simrt.Source) *pkgSrc {
 			f.body = append(f.body, fmt.Sprintf("type T%d int", k)) // maybe redeclared
 		}
 	}
+	if plan.Chance(250) {
+		files = append(files, &file{name: "z_test.xgo", xgo: true, body: []string{"func TestGen(t *testing.T) {\n\tif F0(1) < 0 {\n\t\tt.Fatal(\"neg\")\n\t}\n}"}, imports: "import \"testing\"\n\n"})
+	}
 	p := &pkgSrc{name: "generated", files: map[string]string{}}
 	for i, f := range files {
 		var sb strings.Builder
-		sb.WriteString("package main\n\n")
+		sb.WriteString("package main\n\n" + f.imports)
 		for _, b := range f.body {
 			if b != "" {
 				sb.WriteString(b + "\n\n")
@@ -182,6 +186,52 @@ func genPackage(plan *simrt.Source) *pkgSrc {
 			name = "z" + name
 		}
 		p.files[name] = sb.String()
+	}
+	return p
+}
+
+// genClassProject builds a class-file project for the test framework
+// cl/internal/spx: a project file and 1-5 sprite files, optionally with
+// erroneous sprites (so that the error list has several entries) and with an
+// ordinary XGo or Go file next to them.
+func genClassProject(plan *simrt.Source) *pkgSrc {
+	p := &pkgSrc{name: "generated-classes", files: map[string]string{}}
+	names := []string{"Kai", "Bob", "Amy", "Zed", "Moe", "Ann"}
+	n := 1 + plan.Draw(5)
+	var game strings.Builder
+	game.WriteString("var (\n")
+	var used []string
+	for i := 0; i < n; i++ {
+		nm := names[(i+plan.Draw(6))%len(names)]
+		dup := false
+		for _, u := range used {
+			if u == nm {
+				dup = true
+			}
+		}
+		if dup {
+			continue
+		}
+		used = append(used, nm)
+		fmt.Fprintf(&game, "\t%s %s\n", nm, nm)
+		body := fmt.Sprintf("var (\n\tcount%d int\n)\n\nfunc onMsg(msg string) {\n\tcount%d++\n\tsay \"%s\"\n}\n\nfunc step%d() int {\n\treturn count%d + %d\n}\n", i, i, nm, i, i, i)
+		switch plan.Biased(4, 600) {
+		case 1:
+			body += fmt.Sprintf("\nfunc broken%d() {\n\tundefinedThing%d()\n}\n", i, i)
+		case 2:
+			body += fmt.Sprintf("\nvar bad%d int = \"text\"\n", i)
+		case 3:
+			body += "\nfunc shared() {\n}\n" // the same method name in several sprites is fine; a hook for ordering
+		}
+		p.files[nm+".tspx"] = body
+	}
+	game.WriteString(")\n\nfunc onInit() {\n\tfor {\n\t}\n}\n\ninitGameApp\n")
+	p.files["Game.tgmx"] = game.String()
+	if plan.Chance(300) {
+		p.files["util.xgo"] = "package main\n\nfunc Util(a int) int {\n\treturn a * 2\n}\n"
+	}
+	if plan.Chance(200) {
+		p.files["extra.go"] = "package main\n\nfunc Extra() string {\n\treturn \"extra\"\n}\n"
 	}
 	return p
 }
@@ -249,6 +299,11 @@ func compile(p *pkgSrc, listing []string, e *env0) (res result) {
 		return
 	}
 	res.out = buf.String()
+	// the package's _test file, when it has one
+	var tbuf bytes.Buffer
+	if err := out.WriteTo(&tbuf, "_test"); err == nil && tbuf.Len() > 0 {
+		res.out += "\n// ---- _test ----\n" + tbuf.String()
+	}
 	return
 }
 
@@ -300,6 +355,9 @@ func (c08) NewRun(plan *simrt.Source, job *harn.Job) harn.Run {
 				}
 			}
 		}
+	}
+	if r.pkg == nil && plan.Chance(250) {
+		r.pkg = genClassProject(plan)
 	}
 	if r.pkg == nil {
 		r.pkg = genPackage(plan)
